@@ -5,44 +5,116 @@
 
      base  ::=  .  |  ..  |  NAME  |  .NAME  |  .[ q ]  |  .[ q : q ]  |  .[ q : ]  |  .[ : q ]  |  ( q )  |  [ q ]  |  [ ]
              |  if q then q {elif q then q} [else q] end
-             |  reduce q as $NAME (q; q)  |  foreach q as $NAME (q; q)  |  foreach q as $NAME (q; q; q)
-             |  $NAME  |  break $NAME  |  DIGITS  |  @NAME  |  {}  |  { kv, ..., kv }
+             |  reduce q as PATTERN (q; q)  |  foreach q as PATTERN (q; q)  |  foreach q as PATTERN (q; q; q)
+             |  $NAME  |  break $NAME  |  NUMBER  |  @NAME  |  {}  |  { kv, ..., kv }
      kv    ::=  NAME: q  |  NAME  |  $NAME  |  (q): q
      pt    ::=  base  |  pt .NAME  |  pt [ q ]  |  pt [ q : q ]  |  pt [ q : ]  |  pt [ : q ]  |  pt [ ]  |  pt ?
      ut    ::=  pt  |  + ut  |  - ut  |  try q  |  try q catch q
-     q     ::=  ut  |  q OP q  |  label $NAME | q  |  q as $NAME | q  |  def NAME: q; q
+     q     ::=  ut  |  q OP q  |  label $NAME | q  |  q as PATTERN [?// PATTERN ...] | q  |  def NAME: q; q  |  def NAME(PARAM; ...): q; q
                                          (any nesting: tokens do not depend on precedence)
 
    [e_sq] embeds the sub-grammar into the AST of query.go (Syntax.query): a suffix chain is the SuffixList of the
    base term, `. [q]` (identity with an index as FIRST suffix) is the case query.go prints as `. .[q]`.
    NAME ranges over identifiers that are not keywords ([wf_sq]).  Not covered here (covered by the finite theorems and
-   by the correspondence): strings, floats, formats applied to strings, string keys, definitions with
-   parameters, destructuring patterns, modules.  Definitions and proofs. *)
+   by the correspondence): strings, floats, formats applied to strings, string keys, destructuring patterns, modules.  Definitions and proofs. *)
 From Coq Require Import List NArith Bool String Arith Lia.
 From Verif Require Import common.Sexp sem.JV sem.Syntax c09.GrammarTypes gen.GenGrammar c09.Lexer c09.Run
-  c09.RespaceProofs c09.FullAst c09.Printer c09.PrintTokens.
+  c09.RespaceProofs c09.FullAst c09.Printer c09.StrLex c09.PrintTokens.
 Import ListNotations.
 Local Open Scope nat_scope.
 Local Open Scope list_scope.
 
+(* a parameter of a definition: a filter name or a $variable *)
+Inductive param := PName (n : list N) | PVar (n : list N).
+Definition pbytes (p : param) : list N := match p with PName n => n | PVar n => 36%N :: n end.
+Definition ptok (p : param) : ftok := match p with PName n => FName n | PVar n => FVar n end.
+Definition pok (p : param) : bool := ftok_ok (ptok p).
+Fixpoint i_ptail (r : list param) : list fitem :=
+  match r with [] => [] | p :: r' => (false, FCh 59) :: (true, ptok p) :: i_ptail r' end.
+Definition i_params (ps : list param) : list fitem :=
+  match ps with [] => [] | p :: r => (false, ptok p) :: i_ptail r end.
+
+(* destructuring patterns (keys: NAME, $NAME, "string"; no computed or interpolated keys) *)
+Inductive pat := PV (n : list N) | PA (ps : pats) | PO (os : opats)
+with pats := P1 (p : pat) | PS (p : pat) (r : pats)
+with opats := O1 (o : opat) | OS (o : opat) (r : opats)
+with opat := OKey (n : list N) (p : pat) | OVar (n : list N) | OStr (s : list N) (p : pat).
+Scheme pat_mind := Induction for pat Sort Prop
+  with pats_mind := Induction for pats Sort Prop
+  with opats_mind := Induction for opats Sort Prop
+  with opat_mind := Induction for opat Sort Prop.
+Combined Scheme pat_mutind from pat_mind, pats_mind, opats_mind, opat_mind.
+
+Fixpoint e_pat (p : pat) : pattern :=
+  match p with
+  | PV n => Pattern (36%N :: n) [] []
+  | PA ps => Pattern [] (e_pats ps) []
+  | PO os => Pattern [] [] (e_opats os)
+  end
+with e_pats (ps : pats) : list pattern := match ps with P1 p => [e_pat p] | PS p r => e_pat p :: e_pats r end
+with e_opats (os : opats) : list patternobject := match os with O1 o => [e_opat o] | OS o r => e_opat o :: e_opats r end
+with e_opat (o : opat) : patternobject :=
+  match o with
+  | OKey n p => PatternObject n None None (Some (e_pat p))
+  | OVar n => PatternObject (36%N :: n) None None None
+  | OStr s p => PatternObject [] (Some (JString s None)) None (Some (e_pat p))
+  end.
+
+Definition sp1 (items : list fitem) : list fitem := match items with (_, t) :: r => (true, t) :: r | [] => [] end.
+
+Fixpoint i_pat (p : pat) : list fitem :=
+  match p with
+  | PV n => [(false, FVar n)]
+  | PA ps => (false, FCh 91) :: i_pats ps ++ [(false, FCh 93)]
+  | PO os => (false, FCh 123) :: i_opats os ++ [(false, FCh 125)]
+  end
+with i_pats (ps : pats) : list fitem :=
+  match ps with P1 p => i_pat p | PS p r => i_pat p ++ (false, FOp OpComma) :: sp1 (i_pats r) end
+with i_opats (os : opats) : list fitem :=
+  match os with O1 o => i_opat o | OS o r => i_opat o ++ (false, FOp OpComma) :: sp1 (i_opats r) end
+with i_opat (o : opat) : list fitem :=
+  match o with
+  | OKey n p => (false, FName n) :: (false, FCh 58) :: sp1 (i_pat p)
+  | OVar n => [(false, FVar n)]
+  | OStr s p => (false, FStr (enc_body s)) :: (false, FCh 58) :: sp1 (i_pat p)
+  end.
+
+Fixpoint wf_pat (p : pat) : bool :=
+  match p with PV n => name_ok n | PA ps => wf_pats ps | PO os => wf_opats os end
+with wf_pats (ps : pats) : bool := match ps with P1 p => wf_pat p | PS p r => wf_pat p && wf_pats r end
+with wf_opats (os : opats) : bool := match os with O1 o => wf_opat o | OS o r => wf_opat o && wf_opats r end
+with wf_opat (o : opat) : bool :=
+  match o with OKey n p => ftok_ok (FName n) && wf_pat p | OVar n => name_ok n | OStr _ p => wf_pat p end.
+
+(* ?// alternatives *)
+Fixpoint i_alts (l : list pat) : list fitem :=
+  match l with [] => [] | q :: r => (true, FDestAlt) :: sp1 (i_pat q) ++ i_alts r end.
+
 Inductive base := BId | BRec | BName (n : list N) | BField (n : list N) | BParen (q : sq) | BArr (q : sq) | BArr0
 | BIf (c t : sq) (el : elifs) | BIfElse (c t : sq) (el : elifs) (e : sq)
-| BReduce (src : sq) (x : list N) (init update : sq)
-| BForeach (src : sq) (x : list N) (init update : sq)
-| BForeach3 (src : sq) (x : list N) (init update extract : sq)
+| BReduce (src : sq) (x : pat) (init update : sq)
+| BForeach (src : sq) (x : pat) (init update : sq)
+| BForeach3 (src : sq) (x : pat) (init update extract : sq)
 | BVar (n : list N) | BBreak (n : list N) | BNum (ds : list N)
 | BObj0 | BObj (l : kvs)
 | BIndex (q : sq) | BSlice (a b : sq) | BSliceFrom (a : sq) | BSliceTo (b : sq)
 | BFormat (n : list N)
+| BStr (s : list N) | BFormatStr (n s : list N) | BFieldStr (s : list N)
+| BIStr (lit : list N) (q : sq) (rest : stail)        (* "lit\(q)rest": lit = [] means no literal piece *)
+| BFormatIStr (n : list N) (lit : list N) (q : sq) (rest : stail)
 with pt := PBase (b : base) | PSfx (t : pt) (s : sfx)
 with sfx := XName (n : list N) | XIdx (q : sq) | XIter | XOpt | XSlice (a b : sq) | XSliceFrom (a : sq) | XSliceTo (b : sq)
+  | XStr (s : list N)
 with ut := UT (t : pt) | USign (neg : bool) (u : ut) | UTry (b : sq) | UTryCatch (b c : sq)
 with sq := QU (u : ut) | QBin (l : sq) (o : operator) (r : sq)
-         | QLabel (x : list N) (body : sq) | QAs (src : sq) (x : list N) (body : sq)
+         | QLabel (x : list N) (body : sq) | QAs (src : sq) (p : pat) (alts : list pat) (body : sq)
          | QDef (name : list N) (body rest : sq)
+         | QDefP (name : list N) (ps : list param) (body rest : sq)
 with kvs := KOne (k : kv) | KMore (k : kv) (rest : kvs)
 with kv := KVVal (n : list N) (v : sq) | KVName (n : list N) | KVVar (n : list N) | KVQuery (k v : sq)
-with elifs := ENil | ECons (c t : sq) (rest : elifs).
+  | KVStr (s : list N) (v : sq) | KVStrOnly (s : list N)
+with elifs := ENil | ECons (c t : sq) (rest : elifs)
+with stail := TEnd (lit : list N) | TQ (lit : list N) (q : sq) (rest : stail).
 
 Scheme base_mind := Induction for base Sort Prop
   with pt_mind := Induction for pt Sort Prop
@@ -51,11 +123,16 @@ Scheme base_mind := Induction for base Sort Prop
   with sq_mind := Induction for sq Sort Prop
   with kvs_mind := Induction for kvs Sort Prop
   with kv_mind := Induction for kv Sort Prop
-  with elifs_mind := Induction for elifs Sort Prop.
-Combined Scheme sub_mutind from base_mind, pt_mind, sfx_mind, ut_mind, sq_mind, kvs_mind, kv_mind, elifs_mind.
+  with elifs_mind := Induction for elifs Sort Prop
+  with stail_mind := Induction for stail Sort Prop.
+Combined Scheme sub_mutind from base_mind, pt_mind, sfx_mind, ut_mind, sq_mind, kvs_mind, kv_mind, elifs_mind, stail_mind.
 
 (* ---- embedding into the AST of query.go --------------------------------------------------------------- *)
 Definition qterm (t : term) : query := Query [] [] (Some t) None None None [].
+Definition strpart (s : list N) : query := qterm (Term (TString (JString s None)) []).
+Definition interp (q : query) : query := qterm (Term (TQuery q) []).
+(* a literal piece of an interpolated string; the lexer yields no token for an empty piece *)
+Definition lpart (lit : list N) : list query := match lit with [] => [] | _ => [strpart lit] end.
 Definition snoc_sfx (t : term) (s : suffix) : term := match t with Term k l => Term k (l ++ [s]) end.
 Definition sign_op (neg : bool) : operator := if neg then OpSub else OpAdd.
 (* prependFuncDef *)
@@ -72,9 +149,9 @@ Fixpoint e_base (b : base) : termkind :=
   | BArr0 => TArray None
   | BIf c t el => TIf (e_sq c) (e_sq t) (e_elifs el) None
   | BIfElse c t el e => TIf (e_sq c) (e_sq t) (e_elifs el) (Some (e_sq e))
-  | BReduce src x i u => TReduce (e_sq src) (Pattern (36%N :: x) [] []) (e_sq i) (e_sq u)
-  | BForeach src x i u => TForeach (e_sq src) (Pattern (36%N :: x) [] []) (e_sq i) (e_sq u) None
-  | BForeach3 src x i u e => TForeach (e_sq src) (Pattern (36%N :: x) [] []) (e_sq i) (e_sq u) (Some (e_sq e))
+  | BReduce src x i u => TReduce (e_sq src) (e_pat x) (e_sq i) (e_sq u)
+  | BForeach src x i u => TForeach (e_sq src) (e_pat x) (e_sq i) (e_sq u) None
+  | BForeach3 src x i u e => TForeach (e_sq src) (e_pat x) (e_sq i) (e_sq u) (Some (e_sq e))
   | BVar n => TFunc (Func (36%N :: n) [])
   | BBreak n => TBreak (36%N :: n)
   | BNum ds => TNumber ds num0
@@ -85,6 +162,11 @@ Fixpoint e_base (b : base) : termkind :=
   | BSliceFrom a => TIndex (Index [] None (Some (e_sq a)) None true)
   | BSliceTo b => TIndex (Index [] None None (Some (e_sq b)) true)
   | BFormat n => TFormat (64%N :: n) None
+  | BStr s => TString (JString s None)
+  | BFormatStr n s => TFormat (64%N :: n) (Some (JString s None))
+  | BFieldStr s => TIndex (Index [] (Some (JString s None)) None None false)
+  | BIStr lit q rest => TString (JString [] (Some (lpart lit ++ interp (e_sq q) :: e_tail rest)))
+  | BFormatIStr n lit q rest => TFormat (64%N :: n) (Some (JString [] (Some (lpart lit ++ interp (e_sq q) :: e_tail rest))))
   end
 with e_pt (t : pt) : term :=
   match t with PBase b => Term (e_base b) [] | PSfx t s => snoc_sfx (e_pt t) (e_sfx s) end
@@ -97,6 +179,7 @@ with e_sfx (s : sfx) : suffix :=
   | XSlice a b => Suffix (Some (Index [] None (Some (e_sq a)) (Some (e_sq b)) true)) false false
   | XSliceFrom a => Suffix (Some (Index [] None (Some (e_sq a)) None true)) false false
   | XSliceTo b => Suffix (Some (Index [] None None (Some (e_sq b)) true)) false false
+  | XStr s => Suffix (Some (Index [] (Some (JString s None)) None None false)) false false
   end
 with e_ut (u : ut) : term :=
   match u with
@@ -110,8 +193,9 @@ with e_sq (q : sq) : query :=
   | QU u => qterm (e_ut u)
   | QBin l o r => Query [] [] None (Some (e_sq l)) (Some o) (Some (e_sq r)) []
   | QLabel x body => qterm (Term (TLabel (36%N :: x) (e_sq body)) [])
-  | QAs src x body => Query [] [] None (Some (e_sq src)) (Some OpPipe) (Some (e_sq body)) [Pattern (36%N :: x) [] []]
+  | QAs src p alts body => Query [] [] None (Some (e_sq src)) (Some OpPipe) (Some (e_sq body)) (e_pat p :: map e_pat alts)
   | QDef n body rest => prepend_def (FuncDef n [] (e_sq body)) (e_sq rest)
+  | QDefP n ps body rest => prepend_def (FuncDef n (map pbytes ps) (e_sq body)) (e_sq rest)
   end
 with e_kvs (l : kvs) : list objectkeyval :=
   match l with KOne k => [e_kv k] | KMore k rest => e_kv k :: e_kvs rest end
@@ -121,18 +205,21 @@ with e_kv (k : kv) : objectkeyval :=
   | KVName n => ObjectKeyVal n None None None
   | KVVar n => ObjectKeyVal (36%N :: n) None None None
   | KVQuery k v => ObjectKeyVal [] None (Some (e_sq k)) (Some (e_sq v))
+  | KVStr s v => ObjectKeyVal [] (Some (JString s None)) None (Some (e_sq v))
+  | KVStrOnly s => ObjectKeyVal [] (Some (JString s None)) None None
   end
 with e_elifs (el : elifs) : list (query * query) :=
-  match el with ENil => [] | ECons c t rest => (e_sq c, e_sq t) :: e_elifs rest end.
+  match el with ENil => [] | ECons c t rest => (e_sq c, e_sq t) :: e_elifs rest end
+with e_tail (r : stail) : list query :=
+  match r with TEnd lit => lpart lit | TQ lit q rest => lpart lit ++ interp (e_sq q) :: e_tail rest end.
 
 (* ---- the tokens (with the spaces the printer puts) ------------------------------------------------------ *)
-Definition isdd (c : N) : bool := ((c =? 46) || ((48 <=? c) && (c <=? 57)))%N.     (* Index.writeTo's test *)
 Definition is_bid (t : pt) : bool := match t with PBase BId => true | _ => false end.
-Definition sp1 (items : list fitem) : list fitem := match items with (_, t) :: r => (true, t) :: r | [] => [] end.
+Definition ipiece (lit : list N) : list fitem := match lit with [] => [] | _ => [(false, FSPiece (enc_body lit))] end.
 Definition brackets (inner : list fitem) : list fitem := (false, FCh 91) :: inner ++ [(false, FCh 93)].
 (* " as $x (INIT; REST" *)
-Definition as_paren (x : list N) (init rest : list fitem) : list fitem :=
-  (true, FKw KAs) :: (true, FVar x) :: (true, FCh 40) :: init ++ (false, FCh 59) :: rest.
+Definition as_paren (x : pat) (init rest : list fitem) : list fitem :=
+  (true, FKw KAs) :: sp1 (i_pat x) ++ (true, FCh 40) :: init ++ (false, FCh 59) :: rest.
 
 Fixpoint i_base (b : base) : list fitem :=
   match b with
@@ -162,6 +249,12 @@ Fixpoint i_base (b : base) : list fitem :=
   | BSliceFrom a => (false, FDot) :: brackets (i_sq a ++ [(false, FCh 58)])
   | BSliceTo b => (false, FDot) :: brackets ((false, FCh 58) :: i_sq b)
   | BFormat n => [(false, FFmt n)]
+  | BStr s => [(false, FStr (enc_body s))]
+  | BFormatStr n s => [(false, FFmt n); (true, FStr (enc_body s))]
+  | BFieldStr s => [(false, FDot); (false, FStr (enc_body s))]
+  | BIStr lit q rest => (false, FSStart) :: ipiece lit ++ (false, FSQuery) :: i_sq q ++ (false, FCh 41) :: i_tail rest
+  | BFormatIStr n lit q rest =>
+      (false, FFmt n) :: (true, FSStart) :: ipiece lit ++ (false, FSQuery) :: i_sq q ++ (false, FCh 41) :: i_tail rest
   end
 with i_pt (t : pt) : list fitem :=
   match t with
@@ -183,6 +276,7 @@ with i_sfx (first_on_id : bool) (lastb : N) (s : sfx) : list fitem :=
   | XSliceTo b =>
       let inner := brackets ((false, FCh 58) :: i_sq b) in
       if first_on_id then (true, FDot) :: inner else inner
+  | XStr s => [(isdd lastb, FDot); (false, FStr (enc_body s))]
   end
 with i_ut (u : ut) : list fitem :=
   match u with
@@ -196,9 +290,13 @@ with i_sq (q : sq) : list fitem :=
   | QU u => i_ut u
   | QBin l o r => i_sq l ++ (negb (is_comma (Some o)), FOp o) :: sp1 (i_sq r)
   | QLabel x body => (false, FKw KLabel) :: (true, FVar x) :: (true, FOp OpPipe) :: sp1 (i_sq body)
-  | QAs src x body => i_sq src ++ (true, FKw KAs) :: (true, FVar x) :: (true, FOp OpPipe) :: sp1 (i_sq body)
+  | QAs src p alts body =>
+      i_sq src ++ (true, FKw KAs) :: sp1 (i_pat p) ++ i_alts alts ++ (true, FOp OpPipe) :: sp1 (i_sq body)
   | QDef n body rest =>
       (false, FKw KDef) :: (true, FName n) :: (false, FCh 58) :: sp1 (i_sq body) ++ (false, FCh 59) :: sp1 (i_sq rest)
+  | QDefP n ps body rest =>
+      (false, FKw KDef) :: (true, FName n) :: (false, FCh 40) :: i_params ps ++
+        (false, FCh 41) :: (false, FCh 58) :: sp1 (i_sq body) ++ (false, FCh 59) :: sp1 (i_sq rest)
   end
 with i_kvs (l : kvs) : list fitem :=
   match l with KOne k => i_kv k | KMore k rest => i_kv k ++ (false, FOp OpComma) :: sp1 (i_kvs rest) end
@@ -208,11 +306,18 @@ with i_kv (k : kv) : list fitem :=
   | KVName n => [(false, FName n)]
   | KVVar n => [(false, FVar n)]
   | KVQuery k v => (false, FCh 40) :: i_sq k ++ (false, FCh 41) :: (false, FCh 58) :: sp1 (i_sq v)
+  | KVStr s v => (false, FStr (enc_body s)) :: (false, FCh 58) :: sp1 (i_sq v)
+  | KVStrOnly s => [(false, FStr (enc_body s))]
   end
 with i_elifs (el : elifs) : list fitem :=
   match el with
   | ENil => []
   | ECons c t rest => (true, FKw KElif) :: sp1 (i_sq c) ++ (true, FKw KThen) :: sp1 (i_sq t) ++ i_elifs rest
+  end
+with i_tail (r : stail) : list fitem :=
+  match r with
+  | TEnd lit => ipiece lit ++ [(false, FSEnd)]
+  | TQ lit q rest => ipiece lit ++ (false, FSQuery) :: i_sq q ++ (false, FCh 41) :: i_tail rest
   end.
 
 Definition tokens_of (q : sq) : list (tk * list N) := map fexpected (i_sq q).
@@ -225,15 +330,17 @@ Fixpoint wf_base (b : base) : bool :=
   | BParen q | BArr q => wf_sq q
   | BIf c t el => wf_sq c && wf_sq t && wf_elifs el
   | BIfElse c t el e => wf_sq c && wf_sq t && wf_elifs el && wf_sq e
-  | BReduce s x i u | BForeach s x i u => name_ok x && wf_sq s && wf_sq i && wf_sq u
-  | BForeach3 s x i u e => name_ok x && wf_sq s && wf_sq i && wf_sq u && wf_sq e
+  | BReduce s x i u | BForeach s x i u => wf_pat x && wf_sq s && wf_sq i && wf_sq u
+  | BForeach3 s x i u e => wf_pat x && wf_sq s && wf_sq i && wf_sq u && wf_sq e
   | BVar n | BBreak n => name_ok n
   | BNum ds => ftok_ok (FNum ds)
   | BObj l => wf_kvs l
   | BIndex q => wf_sq q
   | BSlice a b => wf_sq a && wf_sq b
   | BSliceFrom a | BSliceTo a => wf_sq a
-  | BFormat n => ftok_ok (FFmt n)
+  | BFormat n | BFormatStr n _ => ftok_ok (FFmt n)
+  | BIStr _ q r => wf_sq q && wf_tail r
+  | BFormatIStr n _ q r => ftok_ok (FFmt n) && wf_sq q && wf_tail r
   | _ => true
   end
 with wf_pt (t : pt) : bool := match t with PBase b => wf_base b | PSfx t s => wf_pt t && wf_sfx s end
@@ -247,8 +354,9 @@ with wf_sq (q : sq) : bool :=
   match q with
   | QU u => wf_ut u | QBin l _ r => wf_sq l && wf_sq r
   | QLabel x b => name_ok x && wf_sq b
-  | QAs s x b => name_ok x && wf_sq s && wf_sq b
+  | QAs s p alts b => wf_pat p && forallb wf_pat alts && wf_sq s && wf_sq b
   | QDef n b r => fname_ok n && wf_sq b && wf_sq r
+  | QDefP n ps b r => fname_ok n && negb (match ps with [] => true | _ => false end) && forallb pok ps && wf_sq b && wf_sq r
   end
 with wf_kvs (l : kvs) : bool := match l with KOne k => wf_kv k | KMore k r => wf_kv k && wf_kvs r end
 with wf_kv (k : kv) : bool :=
@@ -257,9 +365,12 @@ with wf_kv (k : kv) : bool :=
   | KVName n => fname_ok n
   | KVVar n => name_ok n
   | KVQuery k v => wf_sq k && wf_sq v
+  | KVStr _ v => wf_sq v
+  | KVStrOnly _ => true
   end
 with wf_elifs (el : elifs) : bool :=
-  match el with ENil => true | ECons c t rest => wf_sq c && wf_sq t && wf_elifs rest end.
+  match el with ENil => true | ECons c t rest => wf_sq c && wf_sq t && wf_elifs rest end
+with wf_tail (r : stail) : bool := match r with TEnd _ => true | TQ _ q rest => wf_sq q && wf_tail rest end.
 
 (* ---- list facts ----------------------------------------------------------------------------------------- *)
 Lemma rev_append_app : forall (a b acc : list N), rev_append (a ++ b) acc = rev_append b (rev_append a acc).
@@ -319,27 +430,27 @@ Lemma index_space_okp : forall acc, okp acc -> index_space acc = acc.
 Proof. intros [|c acc] H; [reflexivity|]. rewrite index_space_dd. simpl in H. rewrite H. reflexivity. Qed.
 
 Lemma first_nosp :
-  (forall b, exists t r, i_base b = (false, t) :: r) /\
-  (forall p, exists t r, i_pt p = (false, t) :: r) /\
+  (forall b, exists t r, i_base b = (false, t) :: r /\ tmode t = false) /\
+  (forall p, exists t r, i_pt p = (false, t) :: r /\ tmode t = false) /\
   (forall s : sfx, True) /\
-  (forall u, exists t r, i_ut u = (false, t) :: r) /\
-  (forall q, exists t r, i_sq q = (false, t) :: r) /\
-  (forall l, exists t r, i_kvs l = (false, t) :: r) /\
-  (forall k, exists t r, i_kv k = (false, t) :: r) /\
-  (forall el : elifs, True).
+  (forall u, exists t r, i_ut u = (false, t) :: r /\ tmode t = false) /\
+  (forall q, exists t r, i_sq q = (false, t) :: r /\ tmode t = false) /\
+  (forall l, exists t r, i_kvs l = (false, t) :: r /\ tmode t = false) /\
+  (forall k, exists t r, i_kv k = (false, t) :: r /\ tmode t = false) /\
+  (forall el : elifs, True) /\ (forall r : stail, True).
 Proof.
-  apply sub_mutind; intros; simpl; auto; try (eexists; eexists; reflexivity);
+  apply sub_mutind; intros; simpl; auto; try (eexists; eexists; split; reflexivity);
     match goal with
-    | H : exists t r, _ = (false, t) :: r |- _ =>
-        destruct H as (t0 & r0 & E); rewrite E; simpl; eexists; eexists; reflexivity
+    | H : exists t r, _ = (false, t) :: r /\ _ |- _ =>
+        destruct H as (t0 & r0 & E & M); rewrite E; simpl; eexists; eexists; split; [reflexivity|exact M]
     end.
 Qed.
 
 Lemma frender_sp1 : forall q, frender (sp1 (i_sq q)) = 32%N :: frender (i_sq q).
-Proof. intros q. destruct (proj1 (proj2 (proj2 (proj2 (proj2 first_nosp)))) q) as (t & r & E). rewrite E. reflexivity. Qed.
+Proof. intros q. destruct (proj1 (proj2 (proj2 (proj2 (proj2 first_nosp)))) q) as (t & r & E & _). rewrite E. reflexivity. Qed.
 
 Lemma frender_sp1k : forall l, frender (sp1 (i_kvs l)) = 32%N :: frender (i_kvs l).
-Proof. intros l. destruct (proj1 (proj2 (proj2 (proj2 (proj2 (proj2 first_nosp))))) l) as (t & r & E). rewrite E. reflexivity. Qed.
+Proof. intros l. destruct (proj1 (proj2 (proj2 (proj2 (proj2 (proj2 first_nosp))))) l) as (t & r & E & _). rewrite E. reflexivity. Qed.
 
 Lemma name_ok_nonempty : forall n, name_ok n = true -> exists c r, n = c :: r.
 Proof. intros [|c r] H; [discriminate H|eauto]. Qed.
@@ -360,14 +471,42 @@ Definition imports_of (q : query) : list import := match q with Query i _ _ _ _ 
 Lemma e_sq_noimp : forall q, imports_of (e_sq q) = [].
 Proof.
   apply (sq_mind (fun _ => True) (fun _ => True) (fun _ => True) (fun _ => True) (fun q => imports_of (e_sq q) = [])
-                 (fun _ => True) (fun _ => True) (fun _ => True));
-    intros; auto.
-  simpl. destruct (e_sq rest); simpl in *; auto.
+                 (fun _ => True) (fun _ => True) (fun _ => True) (fun _ => True));
+    intros; auto; simpl; destruct (e_sq rest); simpl in *; auto.
 Qed.
 
 Lemma w_query_prepend : forall q fd acc, imports_of q = [] ->
   w_query (prepend_def fd q) acc = w_query q (wb 32 (w_funcdef fd acc)).
 Proof. intros [i f t l o r p] fd acc H. simpl in H. subst i. reflexivity. Qed.
+
+(* one round of String.writeTo's loop over Queries *)
+Definition w_spart (e : query) (acc : list N) : list N :=
+  match e with
+  | Query _ _ (Some (Term k _)) _ _ _ _ =>
+      if has_str k then wbs (strip_ends (rev (w_query e []))) acc else w_query e (wb 92 acc)
+  | _ => acc
+  end.
+Lemma w_jstring_interp : forall x qs acc, w_jstring (JString x (Some qs)) acc = wb 34 (w_each w_spart qs (wb 34 acc)).
+Proof. reflexivity. Qed.
+
+Lemma w_spart_lit : forall s acc, w_spart (strpart s) acc = rev_append (enc_body s) acc.
+Proof.
+  intros s acc. unfold w_spart, strpart, qterm. cbn [has_str].
+  replace (w_query (Query [] [] (Some (Term (TString (JString s None)) [])) None None None []) [])
+    with (encode_string s []) by reflexivity.
+  rewrite encode_string_bytes. rewrite rev_append_rev, app_nil_r, rev_involutive.
+  unfold strip_ends. cbn [tl]. rewrite removelast_last. reflexivity.
+Qed.
+
+Lemma w_lpart : forall lit X acc,
+  w_each w_spart (lpart lit ++ X) acc = w_each w_spart X (rev_append (frender (ipiece lit)) acc).
+Proof.
+  intros [|c r] X acc; [reflexivity|].
+  cbn [lpart app w_each ipiece frender spb ftok_bytes]. rewrite w_spart_lit. rewrite app_nil_r. reflexivity.
+Qed.
+
+Lemma w_spart_interp : forall q acc, w_spart (interp q) acc = wb 41 (w_query q (wb 40 (wb 92 acc))).
+Proof. reflexivity. Qed.
 
 (* one round of If.writeTo's loop over Elif *)
 Definition w_elif (ct : query * query) (acc : list N) : list N :=
@@ -380,10 +519,102 @@ Definition w_more : list objectkeyval -> list N -> list N :=
 Lemma w_sep_kv_cons : forall x r acc, w_sep w_kv ", " (x :: r) acc = w_more r (w_kv x acc).
 Proof. reflexivity. Qed.
 
+Lemma w_ptail : forall r acc,
+  (fix go (r : list (list N)) (acc : list N) : list N :=
+     match r with [] => acc | y :: r' => go r' (wbs y (ws "; " acc)) end) (map pbytes r) acc
+  = rev_append (frender (i_ptail r)) acc.
+Proof.
+  induction r as [|p r IH]; intros acc; [reflexivity|].
+  cbn [map i_ptail frender]. rewrite IH. unfold wbs, ws. simpl.
+  rewrite ?rev_append_app. destruct p; simpl; rewrite ?rev_append_app; reflexivity.
+Qed.
+
+Lemma w_params : forall p r acc,
+  w_bytes_sep "; " (map pbytes (p :: r)) acc = rev_append (frender (i_params (p :: r))) acc.
+Proof.
+  intros p r acc. unfold w_bytes_sep, w_sep. cbn [map i_params frender]. rewrite w_ptail.
+  unfold wbs. simpl. rewrite ?rev_append_app. destruct p; simpl; rewrite ?rev_append_app; reflexivity.
+Qed.
+
+(* ---- patterns -------------------------------------------------------------------------------------------- *)
+Lemma first_nosp_pat :
+  (forall p, exists t r, i_pat p = (false, t) :: r /\ tmode t = false) /\
+  (forall ps, exists t r, i_pats ps = (false, t) :: r /\ tmode t = false) /\
+  (forall os, exists t r, i_opats os = (false, t) :: r /\ tmode t = false) /\
+  (forall o, exists t r, i_opat o = (false, t) :: r /\ tmode t = false).
+Proof.
+  apply pat_mutind; intros; simpl; auto; try (eexists; eexists; split; reflexivity);
+    match goal with
+    | H : exists t r, _ = (false, t) :: r /\ _ |- _ =>
+        destruct H as (t0 & r0 & E & M); rewrite E; simpl; eexists; eexists; split; [reflexivity|exact M]
+    end.
+Qed.
+
+Lemma frender_sp1_gen : forall X t r, X = (false, t) :: r -> frender (sp1 X) = 32%N :: frender X.
+Proof. intros X t r ->. reflexivity. Qed.
+Lemma frender_sp1p : forall p, frender (sp1 (i_pat p)) = 32%N :: frender (i_pat p).
+Proof. intros p. destruct (proj1 first_nosp_pat p) as (t & r & E & _). apply (frender_sp1_gen _ t r E). Qed.
+Lemma frender_sp1ps : forall p, frender (sp1 (i_pats p)) = 32%N :: frender (i_pats p).
+Proof. intros p. destruct (proj1 (proj2 first_nosp_pat) p) as (t & r & E & _). apply (frender_sp1_gen _ t r E). Qed.
+Lemma frender_sp1os : forall p, frender (sp1 (i_opats p)) = 32%N :: frender (i_opats p).
+Proof. intros p. destruct (proj1 (proj2 (proj2 first_nosp_pat)) p) as (t & r & E & _). apply (frender_sp1_gen _ t r E). Qed.
+
+Definition w_pmore : list pattern -> list N -> list N :=
+  fix go (r : list pattern) (acc : list N) : list N :=
+    match r with [] => acc | y :: r' => go r' (w_pattern y (ws ", " acc)) end.
+Definition w_omore : list patternobject -> list N -> list N :=
+  fix go (r : list patternobject) (acc : list N) : list N :=
+    match r with [] => acc | y :: r' => go r' (w_patobj y (ws ", " acc)) end.
+
 Ltac fin_print :=
   unfold ws, wb, wbs;
-  repeat progress (rewrite ?frender_app, ?frender_sp1, ?frender_sp1k, ?rev_append_app; cbn [frender as_paren]; simpl);
+  repeat progress (rewrite ?frender_app, ?frender_sp1, ?frender_sp1k, ?frender_sp1p, ?frender_sp1ps, ?frender_sp1os,
+                     ?rev_append_app; cbn [frender as_paren]; simpl);
   reflexivity.
+
+Lemma print_pat :
+  (forall p, wf_pat p = true -> forall acc, w_pattern (e_pat p) acc = rev_append (frender (i_pat p)) acc) /\
+  (forall ps, wf_pats ps = true -> forall acc,
+     exists x r, e_pats ps = x :: r /\ w_pmore r (w_pattern x acc) = rev_append (frender (i_pats ps)) acc) /\
+  (forall os, wf_opats os = true -> forall acc,
+     exists x r, e_opats os = x :: r /\ w_omore r (w_patobj x acc) = rev_append (frender (i_opats os)) acc) /\
+  (forall o, wf_opat o = true -> forall acc, w_patobj (e_opat o) acc = rev_append (frender (i_opat o)) acc).
+Proof.
+  apply pat_mutind.
+  - intros n W acc. cbn [e_pat w_pattern i_pat]. fin_print.
+  - intros ps IH W acc. cbn [wf_pat] in W. destruct (IH W (wb 91 acc)) as (x & r & E & P).
+    cbn [e_pat i_pat]. rewrite E. cbn [w_pattern]. change (w_sep w_pattern ", " (x :: r) (wb 91 acc)) with (w_pmore r (w_pattern x (wb 91 acc))).
+    rewrite P. fin_print.
+  - intros os IH W acc. cbn [wf_pat] in W. destruct (IH W (wb 123 acc)) as (x & r & E & P).
+    cbn [e_pat i_pat]. rewrite E. cbn [w_pattern]. change (w_sep w_patobj ", " (x :: r) (wb 123 acc)) with (w_omore r (w_patobj x (wb 123 acc))).
+    rewrite P. fin_print.
+  - intros p IH W acc. cbn [wf_pats] in W. exists (e_pat p), []. split; [reflexivity|]. cbn [w_pmore i_pats]. auto.
+  - intros p IHp r IHr W acc. cbn [wf_pats] in W. apply andb_prop in W. destruct W as [Wp Wr].
+    exists (e_pat p), (e_pats r). split; [reflexivity|]. rewrite (IHp Wp).
+    destruct (IHr Wr (ws ", " (rev_append (frender (i_pat p)) acc))) as (x & r' & E & P).
+    rewrite E. cbn [w_pmore i_pats]. rewrite P. fin_print.
+  - intros o IH W acc. cbn [wf_opats] in W. exists (e_opat o), []. split; [reflexivity|]. cbn [w_omore i_opats]. auto.
+  - intros o IHo r IHr W acc. cbn [wf_opats] in W. apply andb_prop in W. destruct W as [Wo Wr].
+    exists (e_opat o), (e_opats r). split; [reflexivity|]. rewrite (IHo Wo).
+    destruct (IHr Wr (ws ", " (rev_append (frender (i_opat o)) acc))) as (x & r' & E & P).
+    rewrite E. cbn [w_omore i_opats]. rewrite P. fin_print.
+  - intros n p IH W acc. cbn [wf_opat] in W. apply andb_prop in W. destruct W as [Wn Wp].
+    unfold ftok_ok in Wn. apply andb_prop in Wn. destruct Wn as [Wn _].
+    destruct (name_ok_nonempty n Wn) as (c & r & ->).
+    cbn [e_opat w_patobj i_opat]. rewrite (IH Wp). fin_print.
+  - intros n W acc. cbn [e_opat w_patobj i_opat]. fin_print.
+  - intros s p IH W acc. cbn [wf_opat] in W.
+    cbn [e_opat w_patobj w_jstring i_opat]. rewrite encode_string_bytes. rewrite (IH W). fin_print.
+Qed.
+
+Lemma print_alts : forall alts acc, forallb wf_pat alts = true ->
+  w_each (fun p acc => wb 32 (w_pattern p (ws "?// " acc))) (map e_pat alts) (wb 32 acc)
+  = wb 32 (rev_append (frender (i_alts alts)) acc).
+Proof.
+  induction alts as [|q r IH]; intros acc W; [reflexivity|].
+  simpl in W. apply andb_prop in W. destruct W as [Wq Wr].
+  cbn [map w_each i_alts]. rewrite (proj1 print_pat q Wq). rewrite IH by auto. fin_print.
+Qed.
 
 (* ---- the printer writes exactly the rendering of the token list ------------------------------------------- *)
 Lemma print_items :
@@ -402,7 +633,9 @@ Lemma print_items :
   (forall k, wf_kv k = true -> forall acc, okp acc ->
      w_kv (e_kv k) acc = rev_append (frender (i_kv k)) acc) /\
   (forall el, wf_elifs el = true -> forall acc,
-     w_each w_elif (e_elifs el) acc = rev_append (frender (i_elifs el)) acc).
+     w_each w_elif (e_elifs el) acc = rev_append (frender (i_elifs el)) acc) /\
+  (forall r, wf_tail r = true -> forall acc,
+     wb 34 (w_each w_spart (e_tail r) acc) = rev_append (frender (i_tail r)) acc).
 Proof.
   apply sub_mutind.
   - (* . *) intros _ acc _. reflexivity.
@@ -435,20 +668,22 @@ Proof.
   - (* reduce *)
     intros src IHs x i IHi u IHu W acc OKP. simpl in W. apply andb_prop in W. destruct W as [W Wu].
     apply andb_prop in W. destruct W as [W Wi]. apply andb_prop in W. destruct W as [Wx Ws].
-    cbn [e_base w_term w_pattern i_base as_paren].
-    rewrite (IHs Ws) by reflexivity. rewrite (IHi Wi) by reflexivity. rewrite (IHu Wu) by reflexivity. fin_print.
+    cbn [e_base w_term i_base as_paren].
+    rewrite (IHs Ws) by reflexivity. rewrite (proj1 print_pat x Wx). rewrite (IHi Wi) by reflexivity.
+    rewrite (IHu Wu) by reflexivity. fin_print.
   - (* foreach *)
     intros src IHs x i IHi u IHu W acc OKP. simpl in W. apply andb_prop in W. destruct W as [W Wu].
     apply andb_prop in W. destruct W as [W Wi]. apply andb_prop in W. destruct W as [Wx Ws].
-    cbn [e_base w_term w_pattern i_base as_paren].
-    rewrite (IHs Ws) by reflexivity. rewrite (IHi Wi) by reflexivity. rewrite (IHu Wu) by reflexivity. fin_print.
+    cbn [e_base w_term i_base as_paren].
+    rewrite (IHs Ws) by reflexivity. rewrite (proj1 print_pat x Wx). rewrite (IHi Wi) by reflexivity.
+    rewrite (IHu Wu) by reflexivity. fin_print.
   - (* foreach with extract *)
     intros src IHs x i IHi u IHu e IHe W acc OKP. simpl in W. apply andb_prop in W. destruct W as [W We].
     apply andb_prop in W. destruct W as [W Wu].
     apply andb_prop in W. destruct W as [W Wi]. apply andb_prop in W. destruct W as [Wx Ws].
-    cbn [e_base w_term w_pattern i_base as_paren].
-    rewrite (IHs Ws) by reflexivity. rewrite (IHi Wi) by reflexivity. rewrite (IHu Wu) by reflexivity.
-    rewrite (IHe We) by reflexivity. fin_print.
+    cbn [e_base w_term i_base as_paren].
+    rewrite (IHs Ws) by reflexivity. rewrite (proj1 print_pat x Wx). rewrite (IHi Wi) by reflexivity.
+    rewrite (IHu Wu) by reflexivity. rewrite (IHe We) by reflexivity. fin_print.
   - (* $NAME *) intros n W acc _. simpl. unfold wbs. simpl. rewrite app_nil_r. reflexivity.
   - (* break $NAME *) intros n W acc _. simpl. unfold wbs, ws. simpl. rewrite app_nil_r. reflexivity.
   - (* DIGITS *) intros ds W acc _. simpl. unfold wbs. rewrite app_nil_r. reflexivity.
@@ -474,6 +709,20 @@ Proof.
     cbn [e_base w_term w_idx i_base brackets]. rewrite index_space_okp by auto.
     rewrite (IH W) by reflexivity. fin_print.
   - (* @NAME *) intros n W acc _. simpl. unfold wbs. simpl. rewrite app_nil_r. reflexivity.
+  - (* "s" *) intros s _ acc _. cbn [e_base w_term w_jstring i_base]. rewrite encode_string_bytes. fin_print.
+  - (* @NAME "s" *) intros n s _ acc _. cbn [e_base w_term w_jstring i_base]. rewrite encode_string_bytes. fin_print.
+  - (* ."s" *)
+    intros s _ acc OKP. cbn [e_base w_term w_idx w_jstring i_base]. rewrite index_space_okp by auto.
+    rewrite encode_string_bytes. fin_print.
+  - (* "lit\(q)..." *)
+    intros lit q IHq r IHr W acc OKP. cbn [wf_base] in W. apply andb_prop in W. destruct W as [Wq Wr].
+    cbn [e_base w_term i_base]. rewrite w_jstring_interp. rewrite w_lpart. cbn [w_each]. rewrite w_spart_interp.
+    rewrite (IHq Wq) by reflexivity. rewrite (IHr Wr). fin_print.
+  - (* @NAME "lit\(q)..." *)
+    intros n lit q IHq r IHr W acc OKP. cbn [wf_base] in W. apply andb_prop in W. destruct W as [W Wr].
+    apply andb_prop in W. destruct W as [Wn Wq].
+    cbn [e_base w_term i_base]. rewrite w_jstring_interp. rewrite w_lpart. cbn [w_each]. rewrite w_spart_interp.
+    rewrite (IHq Wq) by reflexivity. rewrite (IHr Wr). fin_print.
   - (* base as a term *) intros b IH W acc OKP. simpl in *. auto.
   - (* t SUFFIX *)
     intros t IHt s IHs W acc OKP. simpl in W. apply andb_prop in W. destruct W as [Wt Ws].
@@ -534,6 +783,12 @@ Proof.
       cbn [e_sfx w_first w_idx i_sfx brackets]. rewrite index_space_dd.
       change (isdd 46) with true. cbn [spb app]. rewrite (IH W) by reflexivity. fin_print.
     + cbn [e_sfx w_first w_suffix w_idx i_sfx brackets]. rewrite (IH W) by reflexivity. fin_print.
+  - (* ."s" suffix *)
+    intros s _ fid c acc _.
+    assert (E : w_first fid (e_sfx (XStr s)) (c :: acc) =
+                w_idx true (Index [] (Some (JString s None)) None None false) (c :: acc)) by (destruct fid; reflexivity).
+    rewrite E. cbn [w_idx w_jstring i_sfx]. rewrite index_space_dd. rewrite encode_string_bytes.
+    destruct (isdd c); fin_print.
   - (* pt as ut *) intros t IH W acc OKP. simpl in *. auto.
   - (* sign *)
     intros neg u IH W acc OKP. simpl in W. cbn [e_ut w_term i_ut frender spb app ftok_bytes].
@@ -558,15 +813,24 @@ Proof.
     cbn [e_sq qterm w_query w_each w_term i_sq].
     rewrite (IHb Wb) by reflexivity. fin_print.
   - (* as *)
-    intros src IHs x b IHb W acc OKP. simpl in W. apply andb_prop in W. destruct W as [W Wb].
-    apply andb_prop in W. destruct W as [Wx Ws].
-    cbn [e_sq w_query w_each w_pattern is_comma i_sq]. rewrite (IHs Ws acc OKP).
+    intros src IHs p alts b IHb W acc OKP. simpl in W. apply andb_prop in W. destruct W as [W Wb].
+    apply andb_prop in W. destruct W as [W Ws]. apply andb_prop in W. destruct W as [Wp Wa].
+    cbn [e_sq w_query w_each is_comma i_sq]. rewrite (IHs Ws acc OKP).
+    rewrite (proj1 print_pat p Wp). rewrite print_alts by auto.
     rewrite op_text_bytes. rewrite (IHb Wb) by reflexivity. fin_print.
   - (* def *)
     intros n b IHb r IHr W acc OKP. simpl in W. apply andb_prop in W. destruct W as [W Wr].
     apply andb_prop in W. destruct W as [Wn Wb].
     cbn [e_sq i_sq]. rewrite w_query_prepend by apply e_sq_noimp.
     cbn [w_funcdef]. rewrite (IHb Wb) by reflexivity. rewrite (IHr Wr) by reflexivity. fin_print.
+  - (* def with parameters *)
+    intros n ps b IHb r IHr W acc OKP. simpl in W. apply andb_prop in W. destruct W as [W Wr].
+    apply andb_prop in W. destruct W as [W Wb]. apply andb_prop in W. destruct W as [W Wps].
+    apply andb_prop in W. destruct W as [Wn NE]. destruct ps as [|p0 pr]; [discriminate NE|].
+    cbn [e_sq i_sq]. rewrite w_query_prepend by apply e_sq_noimp.
+    cbn [w_funcdef]. change (map pbytes (p0 :: pr)) with (pbytes p0 :: map pbytes pr). cbv iota.
+    change (pbytes p0 :: map pbytes pr) with (map pbytes (p0 :: pr)). rewrite w_params.
+    rewrite (IHb Wb) by reflexivity. rewrite (IHr Wr) by reflexivity. fin_print.
   - (* one key *)
     intros k IH W acc OKP. cbn [wf_kvs] in W. exists (e_kv k), []. split; [reflexivity|].
     cbn [w_more i_kvs]. apply IH; auto.
@@ -591,12 +855,23 @@ Proof.
   - (* (q): q *)
     intros k IHk v IHv W acc OKP. cbn [wf_kv] in W. apply andb_prop in W. destruct W as [Wk Wv].
     cbn [e_kv w_kv i_kv]. rewrite (IHk Wk) by reflexivity. rewrite (IHv Wv) by reflexivity. fin_print.
+  - (* "s": q *)
+    intros s v IH W acc OKP. cbn [wf_kv] in W.
+    cbn [e_kv w_kv w_jstring i_kv]. rewrite encode_string_bytes. rewrite (IH W) by reflexivity. fin_print.
+  - (* "s" *)
+    intros s _ acc OKP. cbn [e_kv w_kv w_jstring i_kv]. rewrite encode_string_bytes. fin_print.
   - (* no elif *) intros _ acc. reflexivity.
   - (* elif c then t ... *)
     intros c IHc t IHt rest IHr W acc. cbn [wf_elifs] in W. apply andb_prop in W. destruct W as [W Wr].
     apply andb_prop in W. destruct W as [Wc Wt].
     cbn [e_elifs w_each i_elifs]. rewrite (IHr Wr). unfold w_elif. cbn [fst snd].
     rewrite (IHc Wc) by reflexivity. rewrite (IHt Wt) by reflexivity. fin_print.
+  - (* ...lit, closing quote *)
+    intros lit _ acc. cbn [e_tail i_tail]. rewrite <- (app_nil_r (lpart lit)). rewrite w_lpart. cbn [w_each]. fin_print.
+  - (* ...lit\(q)... *)
+    intros lit q IHq r IHr W acc. cbn [wf_tail] in W. apply andb_prop in W. destruct W as [Wq Wr].
+    cbn [e_tail i_tail]. rewrite w_lpart. cbn [w_each]. rewrite w_spart_interp.
+    rewrite (IHq Wq) by reflexivity. rewrite (IHr Wr). fin_print.
 Qed.
 
 (* ---- the gaps the printer leaves are right ------------------------------------------------------------------ *)
@@ -620,36 +895,38 @@ Lemma chain_nb_sp1 : forall items tail, chain_nb (sp1 items) tail = chain_nb ite
 Proof. intros [|[sp t] r] tail; reflexivity. Qed.
 
 (* bytes that may follow any complete term of the sub-grammar: space ) ] [ ? , ; *)
-Definition goodb (d : N) : bool := ((d =? 32) || (d =? 41) || (d =? 93) || (d =? 91) || (d =? 63) || (d =? 44) || (d =? 59))%N.
+Definition goodb (d : N) : bool :=
+  ((d =? 32) || (d =? 41) || (d =? 93) || (d =? 91) || (d =? 63) || (d =? 44) || (d =? 59) || (d =? 125))%N.
 (* ... or the `:` of a slice, when no second `:` follows *)
 Definition good (tail : list N) : bool :=
   match tail with [] => true | d :: _ => goodb d || ((d =? 58)%N && colon_ok tail) end.
 
 Lemma goodb_cases : forall d, goodb d = true ->
-  d = 32%N \/ d = 41%N \/ d = 93%N \/ d = 91%N \/ d = 63%N \/ d = 44%N \/ d = 59%N.
+  d = 32%N \/ d = 41%N \/ d = 93%N \/ d = 91%N \/ d = 63%N \/ d = 44%N \/ d = 59%N \/ d = 125%N.
 Proof.
   intros d H. unfold goodb in H.
   repeat (apply orb_prop in H; destruct H as [H|H]); apply N.eqb_eq in H; tauto.
 Qed.
 
-Definition not_op (t : ftok) : bool := match t with FOp _ => false | _ => true end.
+Definition not_op (t : ftok) : bool := match t with FOp _ | FSStart | FSPiece _ => false | _ => true end.
 
 Lemma nb_ok_goodb : forall t d x, not_op t = true -> goodb d = true -> nb_ok t (d :: x) = true.
 Proof.
   intros t d x NO G.
-  destruct (goodb_cases d G) as [E|[E|[E|[E|[E|[E|E]]]]]]; subst d;
+  destruct (goodb_cases d G) as [E|[E|[E|[E|[E|[E|[E|E]]]]]]]; subst d;
     destruct t; try discriminate NO; destruct x; try reflexivity; simpl; rewrite ?orb_true_r; reflexivity.
 Qed.
 
 Lemma nb_ok_colon : forall t x, not_op t = true -> colon_ok (58%N :: x) = true -> nb_ok t (58%N :: x) = true.
 Proof.
-  intros t x NO C. unfold nb_ok. rewrite C, orb_true_r, andb_true_r.
-  destruct t; try discriminate NO; try reflexivity. simpl. apply orb_true_r.
+  intros t x NO C.
+  destruct t; try discriminate NO; try reflexivity; unfold nb_ok; rewrite C, orb_true_r, andb_true_r;
+    try reflexivity. simpl. apply orb_true_r.
 Qed.
 
 Lemma good_nb_ok : forall t tail, not_op t = true -> good tail = true -> nb_ok t tail = true.
 Proof.
-  intros t [|d x] NO G; [reflexivity|]. simpl in G. apply orb_prop in G. destruct G as [G|G].
+  intros t [|d x] NO G; [destruct t; try discriminate NO; reflexivity|]. simpl in G. apply orb_prop in G. destruct G as [G|G].
   - apply nb_ok_goodb; auto.
   - apply andb_prop in G. destruct G as [E C]. apply N.eqb_eq in E. subst d. apply nb_ok_colon; auto.
 Qed.
@@ -657,7 +934,7 @@ Qed.
 Lemma goodb_good : forall d x, goodb d = true -> good (d :: x) = true.
 Proof. intros d x H. simpl. rewrite H. reflexivity. Qed.
 
-Definition plain (t : ftok) : bool := match t with FOp _ | FDot | FNum _ => false | _ => true end.
+Definition plain (t : ftok) : bool := match t with FOp _ | FDot | FNum _ | FSStart | FSPiece _ => false | _ => true end.
 
 Lemma dot_nb_ok : forall t x, plain t = true -> nb_ok t (46%N :: x) = true.
 Proof.
@@ -681,7 +958,7 @@ Lemma first_byte :
   (forall s : sfx, True) /\
   (forall u, wf_ut u = true -> exists c rest, frender (i_ut u) = c :: rest /\ startok c) /\
   (forall q, wf_sq q = true -> exists c rest, frender (i_sq q) = c :: rest /\ startok c) /\
-  (forall l : kvs, True) /\ (forall k : kv, True) /\ (forall el : elifs, True).
+  (forall l : kvs, True) /\ (forall k : kv, True) /\ (forall el : elifs, True) /\ (forall r : stail, True).
 Proof.
   apply sub_mutind; intros; simpl in *; auto;
     try (eexists; eexists; split; [reflexivity|split; [|split]; reflexivity]).
@@ -689,12 +966,14 @@ Proof.
     unfold fname_ok, ftok_ok in H. apply andb_prop in H. destruct H as [N _].
     destruct n as [|c r]; [discriminate N|]. unfold name_ok in N. apply andb_prop in N. destruct N as [N1 _].
     exists c, (r ++ []). split; [reflexivity|apply ident_startok; auto].
-  - (* DIGITS *)
-    unfold ftok_ok in H. destruct ds as [|d0 dr]; [discriminate H|].
-    cbn [forallb] in H. apply andb_prop in H. destruct H as [N1 _].
+  - (* number literal *)
+    cbn [ftok_ok] in H. unfold num_lit in H. destruct ds as [|d0 dr]; [discriminate H|].
+    apply andb_prop in H. destruct H as [H _].
     exists d0, (dr ++ []). split; [reflexivity|].
-    unfold isNumber in N1. apply andb_prop in N1. destruct N1 as [A B]. apply N.leb_le in A. apply N.leb_le in B.
-    split; [|split]; apply N.eqb_neq; lia.
+    destruct (isNumber d0) eqn:N1.
+    + unfold isNumber in N1. apply andb_prop in N1. destruct N1 as [A B]. apply N.leb_le in A. apply N.leb_le in B.
+      split; [|split]; apply N.eqb_neq; lia.
+    + apply andb_prop in H. destruct H as [E _]. apply N.eqb_eq in E. subst d0. split; [|split]; reflexivity.
   - (* t SUFFIX *)
     apply andb_prop in H1. destruct H1 as [Wt _]. destruct (H Wt) as (c & rest & E & S).
     rewrite frender_app, E. simpl. eexists; eexists; split; [reflexivity|exact S].
@@ -723,7 +1002,7 @@ Definition okfollow (items : list fitem) (tail : list N) : Prop :=
 Lemma sfx_first : forall s fid c, wf_sfx s = true ->
   exists d rest, frender (i_sfx fid c s) = d :: rest /\ (goodb d = true \/ (d = 46%N /\ isdd c = false)).
 Proof.
-  intros [n|q| | |a b|a|b] fid c W; simpl.
+  intros [n|q| | |a b|a|b|s] fid c W; simpl.
   - destruct (isdd c) eqn:D; simpl; eexists; eexists; (split; [reflexivity|]); [left; reflexivity|right; auto].
   - destruct fid; simpl; eexists; eexists; (split; [reflexivity|left; reflexivity]).
   - eexists; eexists; (split; [reflexivity|left; reflexivity]).
@@ -731,6 +1010,7 @@ Proof.
   - destruct fid; simpl; eexists; eexists; (split; [reflexivity|left; reflexivity]).
   - destruct fid; simpl; eexists; eexists; (split; [reflexivity|left; reflexivity]).
   - destruct fid; simpl; eexists; eexists; (split; [reflexivity|left; reflexivity]).
+  - destruct (isdd c) eqn:D; simpl; eexists; eexists; (split; [reflexivity|]); [left; reflexivity|right; auto].
 Qed.
 
 Lemma nb_ok_close : forall c f, (c =? 63)%N = false -> nb_ok (FCh c) f = true.
@@ -746,12 +1026,8 @@ Qed.
 
 Lemma digits_last_dd : forall ds, ftok_ok (FNum ds) = true -> isdd (last ds 0%N) = true.
 Proof.
-  intros ds W. unfold ftok_ok in W. destruct ds as [|d0 dr]; [discriminate W|].
-  assert (H : forall l, forallb isNumber l = true -> l <> [] -> isNumber (last l 0%N) = true).
-  { induction l as [|x l IH]; intros F NE; [congruence|]. simpl in F. apply andb_prop in F. destruct F as [F1 F2].
-    destruct l as [|y l']; [exact F1|]. apply IH; auto. discriminate. }
-  unfold isdd. replace ((48 <=? last (d0 :: dr) 0) && (last (d0 :: dr) 0 <=? 57))%N with (isNumber (last (d0 :: dr) 0%N)) by reflexivity.
-  rewrite H; auto; [apply orb_true_r|discriminate].
+  intros ds W. cbn [ftok_ok] in W. unfold num_lit in W. destruct ds as [|d0 dr]; [discriminate W|].
+  apply andb_prop in W. tauto.
 Qed.
 
 Lemma okfollow_any : forall items t tail, not_op t = true -> plain t = true -> okfollow items tail -> nb_ok t tail = true.
@@ -759,10 +1035,16 @@ Proof.
   intros items t tail NO PL [G|(x & E & _)]; [apply good_nb_ok; auto|subst tail; apply dot_nb_ok; auto].
 Qed.
 
+Arguments nb_ok : simpl never.
+
 Ltac chain_fin :=
   repeat progress (cbn [chain_nb as_paren i_base i_ut i_sq];
-                   rewrite ?chain_nb_app, ?chain_nb_sp1, ?frender_app, ?frender_sp1;
+                   rewrite ?chain_nb_app, ?chain_nb_sp1, ?frender_app, ?frender_sp1, ?frender_sp1p;
                    cbn [frender spb app ftok_bytes kw_bytes]);
+  repeat match goal with
+         | CP : forall tail, good tail = true -> chain_nb (i_pat ?p) tail = true |- context [chain_nb (i_pat ?p) ?n] =>
+             rewrite (CP n) by reflexivity
+         end;
   repeat match goal with
          | IH : forall tail, good tail = true -> chain_nb (i_sq ?q) tail = true |- context [chain_nb (i_sq ?q) ?n] =>
              rewrite (IH n) by reflexivity
@@ -812,6 +1094,108 @@ Qed.
 Lemma elifs_then_good : forall el z, good (frender (i_elifs el) ++ 32%N :: z) = true.
 Proof. intros [|c t r] z; reflexivity. Qed.
 
+Lemma chain_nb_cons : forall sp t r tail,
+  chain_nb ((sp, t) :: r) tail = ftok_ok t && nb_ok t (frender r ++ tail) && chain_nb r tail.
+Proof. reflexivity. Qed.
+
+Lemma chain_ipiece : forall lit X tail, piece_end (frender X ++ tail) = true ->
+  chain_nb (ipiece lit ++ X) tail = chain_nb X tail.
+Proof.
+  intros [|c r] X tail P; [reflexivity|].
+  cbn [ipiece app chain_nb ftok_ok]. rewrite enc_body_safe.
+  destruct (enc_body (c :: r)) eqn:E; [exfalso; exact (enc_body_nonempty c r E)|].
+  unfold nb_ok. rewrite P. reflexivity.
+Qed.
+
+Lemma start_ahead : forall lit x, interp_ahead (frender (ipiece lit) ++ 92%N :: 40%N :: x) = true.
+Proof.
+  intros [|c r] x; [reflexivity|].
+  cbn [ipiece frender spb app ftok_bytes]. rewrite app_nil_r.
+  rewrite (interp_ahead_app (List.length (enc_body (c :: r))) (enc_body (c :: r))) by (auto using enc_body_safe).
+  reflexivity.
+Qed.
+
+Lemma istr_chain : forall lit q r,
+  (wf_sq q = true -> forall tail, good tail = true -> chain_nb (i_sq q) tail = true) ->
+  (wf_tail r = true -> forall tail, chain_nb (i_tail r) tail = true) ->
+  wf_sq q = true -> wf_tail r = true -> forall tail,
+  chain_nb ((false, FSQuery) :: i_sq q ++ (false, FCh 41) :: i_tail r) tail = true /\
+  chain_nb ((false, FSStart) :: ipiece lit ++ (false, FSQuery) :: i_sq q ++ (false, FCh 41) :: i_tail r) tail = true.
+Proof.
+  intros lit q r IHq IHr Wq Wr tail.
+  assert (A : chain_nb ((false, FSQuery) :: i_sq q ++ (false, FCh 41) :: i_tail r) tail = true).
+  { cbn [chain_nb]. rewrite chain_nb_app. cbn [chain_nb]. rewrite nb_ok_close by reflexivity.
+    rewrite (IHr Wr). rewrite (IHq Wq) by reflexivity. reflexivity. }
+  split; [exact A|].
+  cbn [chain_nb]. rewrite chain_ipiece by reflexivity. rewrite A.
+  rewrite frender_app. cbn [frender spb app ftok_bytes]. rewrite <- app_assoc. cbn [app].
+  unfold nb_ok. rewrite start_ahead. reflexivity.
+Qed.
+
+Lemma nb_ok_nc : forall t d x, not_op t = true -> nb1 t d = true -> (d =? 58)%N = false -> nb_ok t (d :: x) = true.
+Proof.
+  intros t d x NO H1 H2. destruct t; try discriminate NO; try reflexivity; unfold nb_ok; rewrite H1;
+    destruct x; simpl; rewrite ?H2; reflexivity.
+Qed.
+
+Lemma chain_ptail : forall r x, forallb pok r = true -> chain_nb (i_ptail r) (41%N :: x) = true.
+Proof.
+  induction r as [|p r IH]; intros x W; [reflexivity|].
+  simpl in W. apply andb_prop in W. destruct W as [Wp Wr].
+  cbn [i_ptail chain_nb]. rewrite nb_ok_close by reflexivity. unfold pok in Wp. rewrite Wp. rewrite (IH x Wr).
+  assert (G : exists d y, frender (i_ptail r) ++ 41%N :: x = d :: y /\ goodb d = true).
+  { destruct r; simpl; eexists; eexists; split; reflexivity. }
+  destruct G as (d & y & E & G). rewrite E. rewrite nb_ok_goodb; [reflexivity|destruct p; reflexivity|exact G].
+Qed.
+
+Lemma name_colon_space : forall n x, nb_ok (FName n) (58%N :: 32%N :: x) = true.
+Proof. reflexivity. Qed.
+
+Lemma alts_good : forall alts x, good (frender (i_alts alts) ++ 32%N :: x) = true.
+Proof. intros [|q r] x; reflexivity. Qed.
+
+Lemma chain_pat :
+  (forall p, wf_pat p = true -> forall tail, good tail = true -> chain_nb (i_pat p) tail = true) /\
+  (forall ps, wf_pats ps = true -> forall tail, good tail = true -> chain_nb (i_pats ps) tail = true) /\
+  (forall os, wf_opats os = true -> forall tail, good tail = true -> chain_nb (i_opats os) tail = true) /\
+  (forall o, wf_opat o = true -> forall tail, good tail = true -> chain_nb (i_opat o) tail = true).
+Proof.
+  apply pat_mutind.
+  - intros n W tail G. cbn [wf_pat] in W. cbn [i_pat chain_nb frender app]. change (ftok_ok (FVar n)) with (name_ok n).
+    rewrite W. rewrite (good_nb_ok (FVar n) tail eq_refl G). reflexivity.
+  - intros ps IH W tail G. cbn [wf_pat] in W. cbn [i_pat]. rewrite chain_nb_cons, chain_nb_app.
+    rewrite (IH W) by reflexivity. rewrite nb_ok_close by reflexivity. simpl. rewrite nb_ok_close by reflexivity. reflexivity.
+  - intros os IH W tail G. cbn [wf_pat] in W. cbn [i_pat]. rewrite chain_nb_cons, chain_nb_app.
+    rewrite (IH W) by reflexivity. rewrite nb_ok_close by reflexivity. simpl. rewrite nb_ok_close by reflexivity. reflexivity.
+  - intros p IH W tail G. cbn [wf_pats] in W. cbn [i_pats]. auto.
+  - intros p IHp r IHr W tail G. cbn [wf_pats] in W. apply andb_prop in W. destruct W as [Wp Wr].
+    cbn [i_pats]. rewrite chain_nb_app, chain_nb_cons, chain_nb_sp1. rewrite frender_sp1ps. cbn [app].
+    rewrite (IHr Wr tail G). rewrite fop_space. rewrite (IHp Wp) by reflexivity. reflexivity.
+  - intros o IH W tail G. cbn [wf_opats] in W. cbn [i_opats]. auto.
+  - intros o IHo r IHr W tail G. cbn [wf_opats] in W. apply andb_prop in W. destruct W as [Wo Wr].
+    cbn [i_opats]. rewrite chain_nb_app, chain_nb_cons, chain_nb_sp1. rewrite frender_sp1os. cbn [app].
+    rewrite (IHr Wr tail G). rewrite fop_space. rewrite (IHo Wo) by reflexivity. reflexivity.
+  - intros n p IH W tail G. cbn [wf_opat] in W. apply andb_prop in W. destruct W as [Wn Wp].
+    cbn [i_opat]. rewrite !chain_nb_cons, chain_nb_sp1. rewrite Wn. rewrite (IH Wp tail G).
+    rewrite nb_ok_close by reflexivity. cbn [frender spb app ftok_bytes]. rewrite frender_sp1p. cbn [app].
+    rewrite name_colon_space. reflexivity.
+  - intros n W tail G. cbn [wf_opat] in W. cbn [i_opat chain_nb frender app]. change (ftok_ok (FVar n)) with (name_ok n).
+    rewrite W. rewrite (good_nb_ok (FVar n) tail eq_refl G). reflexivity.
+  - intros s p IH W tail G. cbn [wf_opat] in W.
+    cbn [i_opat]. rewrite !chain_nb_cons, chain_nb_sp1. cbn [ftok_ok]. rewrite enc_body_safe. rewrite (IH W tail G).
+    rewrite nb_ok_close by reflexivity. reflexivity.
+Qed.
+
+Lemma chain_alts : forall alts tail, forallb wf_pat alts = true -> good tail = true ->
+  chain_nb (i_alts alts) tail = true.
+Proof.
+  induction alts as [|q r IH]; intros tail W G; [reflexivity|].
+  simpl in W. apply andb_prop in W. destruct W as [Wq Wr].
+  cbn [i_alts]. rewrite chain_nb_cons, chain_nb_app, chain_nb_sp1. rewrite (IH tail Wr G).
+  rewrite (proj1 chain_pat q Wq); [reflexivity|].
+  destruct r; [exact G|reflexivity].
+Qed.
+
 Lemma chain_items :
   (forall b, wf_base b = true -> forall tail, okfollow (i_base b) tail -> chain_nb (i_base b) tail = true) /\
   (forall t, wf_pt t = true -> forall tail, okfollow (i_pt t) tail -> chain_nb (i_pt t) tail = true) /\
@@ -820,10 +1204,12 @@ Lemma chain_items :
   (forall q, wf_sq q = true -> forall tail, good tail = true -> chain_nb (i_sq q) tail = true) /\
   (forall l, wf_kvs l = true -> forall tail, good tail = true -> chain_nb (i_kvs l) tail = true) /\
   (forall k, wf_kv k = true -> forall tail, good tail = true -> chain_nb (i_kv k) tail = true) /\
-  (forall el, wf_elifs el = true -> forall tail, good tail = true -> chain_nb (i_elifs el) tail = true).
+  (forall el, wf_elifs el = true -> forall tail, good tail = true -> chain_nb (i_elifs el) tail = true) /\
+  (forall r, wf_tail r = true -> forall tail, chain_nb (i_tail r) tail = true).
 Proof.
   apply sub_mutind.
-  - (* . *) intros _ nb F. simpl. rewrite (okfollow_nb_ok FDot false nb eq_refl (or_introl eq_refl) F). reflexivity.
+  - (* . *) intros _ nb F. cbn [i_base chain_nb frender app].
+    rewrite (okfollow_nb_ok FDot false nb eq_refl (or_introl eq_refl) F). reflexivity.
   - (* .. *) intros _ nb F. simpl. destruct nb; reflexivity.
   - (* NAME *) intros n W nb F. cbn [wf_base] in W. unfold fname_ok in W.
     cbn [i_base chain_nb frender app]. rewrite W.
@@ -863,16 +1249,17 @@ Proof.
   - (* reduce *)
     intros src IHs x i IHi u IHu W nb F. simpl in W. apply andb_prop in W. destruct W as [W Wu].
     apply andb_prop in W. destruct W as [W Wi]. apply andb_prop in W. destruct W as [Wx Ws].
-    specialize (IHs Ws). specialize (IHi Wi). specialize (IHu Wu). chain_fin.
+    specialize (IHs Ws). specialize (IHi Wi). specialize (IHu Wu). pose proof (proj1 chain_pat x Wx) as CP. chain_fin.
   - (* foreach *)
     intros src IHs x i IHi u IHu W nb F. simpl in W. apply andb_prop in W. destruct W as [W Wu].
     apply andb_prop in W. destruct W as [W Wi]. apply andb_prop in W. destruct W as [Wx Ws].
-    specialize (IHs Ws). specialize (IHi Wi). specialize (IHu Wu). chain_fin.
+    specialize (IHs Ws). specialize (IHi Wi). specialize (IHu Wu). pose proof (proj1 chain_pat x Wx) as CP. chain_fin.
   - (* foreach with extract *)
     intros src IHs x i IHi u IHu e IHe W nb F. simpl in W. apply andb_prop in W. destruct W as [W We].
     apply andb_prop in W. destruct W as [W Wu].
     apply andb_prop in W. destruct W as [W Wi]. apply andb_prop in W. destruct W as [Wx Ws].
-    specialize (IHs Ws). specialize (IHi Wi). specialize (IHu Wu). specialize (IHe We). chain_fin.
+    specialize (IHs Ws). specialize (IHi Wi). specialize (IHu Wu). specialize (IHe We).
+    pose proof (proj1 chain_pat x Wx) as CP. chain_fin.
   - (* $NAME *) intros n W nb F. cbn [wf_base] in W.
     cbn [i_base chain_nb frender app]. change (ftok_ok (FVar n)) with (name_ok n). rewrite W.
     rewrite (okfollow_nb_ok (FVar n) false nb eq_refl (or_intror eq_refl) F). reflexivity.
@@ -906,6 +1293,19 @@ Proof.
   - (* @NAME *) intros n W nb F. cbn [wf_base] in W.
     cbn [i_base chain_nb frender app]. rewrite W.
     rewrite (okfollow_nb_ok (FFmt n) false nb eq_refl (or_intror eq_refl) F). reflexivity.
+  - (* "s" *) intros s _ nb F. cbn [i_base chain_nb ftok_ok]. rewrite enc_body_safe. reflexivity.
+  - (* @NAME "s" *) intros n s W nb F. cbn [wf_base] in W. cbn [i_base chain_nb]. rewrite W.
+    cbn [ftok_ok]. rewrite enc_body_safe. cbn [frender spb app ftok_bytes]. rewrite nb_ok_goodb by reflexivity. reflexivity.
+  - (* ."s" *) intros s _ nb F. cbn [i_base chain_nb ftok_ok]. rewrite enc_body_safe. reflexivity.
+  - (* "lit\(q)..." *)
+    intros lit q IHq r IHr W nb F. cbn [wf_base] in W. apply andb_prop in W. destruct W as [Wq Wr].
+    cbn [i_base]. apply (istr_chain lit q r IHq IHr Wq Wr nb).
+  - (* @NAME "lit\(q)..." *)
+    intros n lit q IHq r IHr W nb F. cbn [wf_base] in W. apply andb_prop in W. destruct W as [W Wr].
+    apply andb_prop in W. destruct W as [Wn Wq].
+    cbn [i_base]. rewrite chain_nb_cons. rewrite Wn. rewrite (chain_nb_cons true FSStart). rewrite <- (chain_nb_cons false FSStart).
+    rewrite (proj2 (istr_chain lit q r IHq IHr Wq Wr nb)).
+    cbn [frender spb app ftok_bytes]. rewrite nb_ok_goodb by reflexivity. reflexivity.
   - (* base as term *) intros b IH W nb F. simpl in *. auto.
   - (* t SUFFIX *)
     intros t IHt s IHs W nb F. simpl in W. apply andb_prop in W. destruct W as [Wt Ws].
@@ -930,7 +1330,7 @@ Proof.
   - (* ? *)
     intros _ fid c nb F. simpl. destruct F as [G|(x & -> & _)]; [|reflexivity].
     destruct nb as [|d x]; [reflexivity|]. simpl in G. apply orb_prop in G. destruct G as [G|G].
-    + destruct (goodb_cases d G) as [E|[E|[E|[E|[E|[E|E]]]]]]; subst d; reflexivity.
+    + destruct (goodb_cases d G) as [E|[E|[E|[E|[E|[E|[E|E]]]]]]]; subst d; reflexivity.
     + apply andb_prop in G. destruct G as [E _]. apply N.eqb_eq in E. subst d. reflexivity.
   - (* [ a : b ] suffix *)
     intros a IHa b IHb W fid c nb F. cbn [wf_sfx] in W. apply andb_prop in W. destruct W as [Wa Wb].
@@ -947,11 +1347,13 @@ Proof.
     pose proof (slice_to_chain b IHb W nb) as B.
     destruct fid; cbn [i_sfx]; [|exact B].
     cbn [chain_nb]. rewrite B. reflexivity.
+  - (* ."s" suffix *)
+    intros s _ fid c nb F. cbn [i_sfx chain_nb ftok_ok]. rewrite enc_body_safe. reflexivity.
   - (* pt as ut *) intros t IH W nb G. simpl in *. apply IH; auto. left; exact G.
   - (* sign *)
     intros neg u IH W nb G. simpl in W. cbn [i_ut chain_nb].
     destruct (proj1 (proj2 (proj2 (proj2 first_byte))) u W) as (c & rest & E & S1 & S2 & _).
-    rewrite E. simpl. rewrite S1, S2. rewrite (IH W nb G). destruct neg; reflexivity.
+    rewrite E. unfold nb_ok. simpl. rewrite S1, S2. rewrite (IH W nb G). destruct neg; reflexivity.
   - (* try *)
     intros b IHb W nb G. simpl in W. specialize (IHb W). chain_fin. rewrite (IHb nb G). reflexivity.
   - (* try catch *)
@@ -967,13 +1369,38 @@ Proof.
     intros x b IHb W nb G. simpl in W. apply andb_prop in W. destruct W as [Wx Wb].
     specialize (IHb Wb). chain_fin. rewrite (IHb nb G). reflexivity.
   - (* as *)
-    intros src IHs x b IHb W nb G. simpl in W. apply andb_prop in W. destruct W as [W Wb].
-    apply andb_prop in W. destruct W as [Wx Ws].
-    specialize (IHs Ws). specialize (IHb Wb). chain_fin. rewrite (IHb nb G). reflexivity.
+    intros src IHs p alts b IHb W nb G. simpl in W. apply andb_prop in W. destruct W as [W Wb].
+    apply andb_prop in W. destruct W as [W Ws]. apply andb_prop in W. destruct W as [Wp Wa].
+    specialize (IHs Ws). specialize (IHb Wb).
+    cbn [i_sq]. rewrite chain_nb_app, chain_nb_cons, chain_nb_app, chain_nb_sp1, chain_nb_app, chain_nb_cons, chain_nb_sp1.
+    rewrite ?frender_app, ?frender_sp1, ?frender_sp1p. cbn [frender spb app ftok_bytes fop_bytes kw_bytes].
+    rewrite <- ?app_assoc. cbn [app].
+    rewrite (IHb nb G). rewrite fop_space. rewrite chain_alts by (auto; reflexivity).
+    rewrite (proj1 chain_pat p Wp) by apply alts_good.
+    rewrite IHs by reflexivity. rewrite nb_ok_goodb by reflexivity. reflexivity.
   - (* def *)
     intros n b IHb r IHr W nb G. simpl in W. apply andb_prop in W. destruct W as [W Wr].
     apply andb_prop in W. destruct W as [Wn Wb]. unfold fname_ok in Wn.
     specialize (IHb Wb). specialize (IHr Wr). cbn [i_sq chain_nb]. rewrite Wn. chain_fin. rewrite (IHr nb G). reflexivity.
+  - (* def with parameters *)
+    intros n ps b IHb r IHr W nb G. simpl in W. apply andb_prop in W. destruct W as [W Wr].
+    apply andb_prop in W. destruct W as [W Wb]. apply andb_prop in W. destruct W as [W Wps].
+    apply andb_prop in W. destruct W as [Wn NE]. destruct ps as [|p0 pr]; [discriminate NE|]. unfold fname_ok in Wn.
+    simpl in Wps. apply andb_prop in Wps. destruct Wps as [Wp0 Wpr]. unfold pok in Wp0.
+    specialize (IHb Wb). specialize (IHr Wr).
+    cbn [i_sq i_params app]. rewrite !chain_nb_cons. rewrite Wn, Wp0. rewrite nb_ok_close by reflexivity.
+    rewrite chain_nb_app. rewrite !chain_nb_cons. rewrite !nb_ok_close by reflexivity.
+    rewrite chain_nb_app, chain_nb_sp1. rewrite !chain_nb_cons. rewrite nb_ok_close by reflexivity. rewrite chain_nb_sp1.
+    rewrite (IHr nb G). rewrite IHb by (rewrite ?frender_app, ?frender_sp1; reflexivity).
+    cbn [frender spb app ftok_bytes]. rewrite chain_ptail by exact Wpr.
+    rewrite (nb_ok_nc (FName n) 40%N) by reflexivity.
+    assert (GG : exists d y, frender (i_ptail pr ++ (false, FCh 41) :: (false, FCh 58)
+                                        :: sp1 (i_sq b) ++ (false, FCh 59) :: sp1 (i_sq r)) ++ nb
+                 = d :: y /\ goodb d = true).
+    { destruct pr; simpl; eexists; eexists; split; reflexivity. }
+    destruct GG as (d & y & E & GD). rewrite E.
+    assert (PN : not_op (ptok p0) = true) by (destruct p0; reflexivity).
+    rewrite (nb_ok_goodb (ptok p0) d y PN GD). repeat rewrite nb_ok_goodb by reflexivity. reflexivity.
   - (* one key *) intros k IH W nb G. simpl in *. auto.
   - (* key, more *)
     intros k IHk rest IHr W nb G. cbn [wf_kvs] in W. apply andb_prop in W. destruct W as [Wk Wr].
@@ -992,6 +1419,10 @@ Proof.
     intros k IHk v IHv W nb G. cbn [wf_kv] in W. apply andb_prop in W. destruct W as [Wk Wv].
     specialize (IHk Wk). specialize (IHv Wv). cbn [i_kv chain_nb]. rewrite nb_ok_close by reflexivity.
     rewrite chain_nb_app. rewrite IHk by reflexivity. chain_fin. rewrite (IHv nb G). reflexivity.
+  - (* "s": q *)
+    intros s v IH W nb G. cbn [wf_kv] in W. specialize (IH W).
+    cbn [i_kv chain_nb ftok_ok]. rewrite enc_body_safe. chain_fin. rewrite (IH nb G). reflexivity.
+  - (* "s" *) intros s _ nb G. cbn [i_kv chain_nb ftok_ok]. rewrite enc_body_safe. reflexivity.
   - (* no elif *) intros _ nb G. reflexivity.
   - (* elif c then t ... *)
     intros c IHc t IHt rest IHr W nb G. cbn [wf_elifs] in W. apply andb_prop in W. destruct W as [W Wr].
@@ -1003,6 +1434,91 @@ Proof.
     rewrite <- ?app_assoc. cbn [frender spb app ftok_bytes kw_bytes].
     rewrite IHt; [repeat rewrite nb_ok_goodb by reflexivity; reflexivity|].
     destruct rest; [cbn [i_elifs frender app]; exact G|reflexivity].
+  - (* ...lit, closing quote *)
+    intros lit _ nb. cbn [i_tail]. rewrite chain_ipiece by reflexivity. reflexivity.
+  - (* ...lit\(q)... *)
+    intros lit q IHq r IHr W nb. cbn [wf_tail] in W. apply andb_prop in W. destruct W as [Wq Wr].
+    cbn [i_tail]. rewrite chain_ipiece by reflexivity.
+    apply (proj1 (istr_chain [] q r IHq IHr Wq Wr nb)).
+Qed.
+
+(* ---- every token is lexed in the mode it needs; parentheses are balanced --------------------------------- *)
+Lemma modes_sp1 : forall X t r stk rest, X = (false, t) :: r -> tmode t = false ->
+  modes false stk (sp1 X ++ rest) = modes false stk (X ++ rest).
+Proof. intros X t r stk rest -> M. simpl. rewrite M. reflexivity. Qed.
+
+Lemma modes_sp1_sq : forall q stk rest, modes false stk (sp1 (i_sq q) ++ rest) = modes false stk (i_sq q ++ rest).
+Proof.
+  intros q stk rest. destruct (proj1 (proj2 (proj2 (proj2 (proj2 first_nosp)))) q) as (t & r & E & M).
+  apply (modes_sp1 _ t r); auto.
+Qed.
+
+Lemma modes_sp1_kvs : forall l stk rest, modes false stk (sp1 (i_kvs l) ++ rest) = modes false stk (i_kvs l ++ rest).
+Proof.
+  intros l stk rest. destruct (proj1 (proj2 (proj2 (proj2 (proj2 (proj2 first_nosp))))) l) as (t & r & E & M).
+  apply (modes_sp1 _ t r); auto.
+Qed.
+
+Lemma modes_ipiece : forall lit stk X, modes true stk (ipiece lit ++ X) = modes true stk X.
+Proof. intros [|c r] stk X; reflexivity. Qed.
+
+Lemma modes_sp1_pat : forall p stk rest, modes false stk (sp1 (i_pat p) ++ rest) = modes false stk (i_pat p ++ rest).
+Proof. intros p stk rest. destruct (proj1 first_nosp_pat p) as (t & r & E & M). apply (modes_sp1 _ t r); auto. Qed.
+Lemma modes_sp1_pats : forall p stk rest, modes false stk (sp1 (i_pats p) ++ rest) = modes false stk (i_pats p ++ rest).
+Proof. intros p stk rest. destruct (proj1 (proj2 first_nosp_pat) p) as (t & r & E & M). apply (modes_sp1 _ t r); auto. Qed.
+Lemma modes_sp1_opats : forall p stk rest, modes false stk (sp1 (i_opats p) ++ rest) = modes false stk (i_opats p ++ rest).
+Proof. intros p stk rest. destruct (proj1 (proj2 (proj2 first_nosp_pat)) p) as (t & r & E & M). apply (modes_sp1 _ t r); auto. Qed.
+
+Lemma modes_pat :
+  (forall p stk rest, modes false stk (i_pat p ++ rest) = modes false stk rest) /\
+  (forall p stk rest, modes false stk (i_pats p ++ rest) = modes false stk rest) /\
+  (forall p stk rest, modes false stk (i_opats p ++ rest) = modes false stk rest) /\
+  (forall p stk rest, modes false stk (i_opat p ++ rest) = modes false stk rest).
+Proof.
+  apply pat_mutind; intros;
+    repeat progress (simpl; rewrite <- ?app_assoc; rewrite ?modes_sp1_pat, ?modes_sp1_pats, ?modes_sp1_opats;
+                     repeat match goal with
+                            | IH : forall stk rest, modes false stk (?X ++ rest) = modes false stk rest
+                              |- context [modes false ?s (?X ++ ?r)] => rewrite (IH s r)
+                            end); reflexivity.
+Qed.
+
+Lemma modes_alts : forall alts stk rest, modes false stk (i_alts alts ++ rest) = modes false stk rest.
+Proof.
+  induction alts as [|q r IH]; intros stk rest; [reflexivity|].
+  cbn [i_alts app]. simpl. rewrite <- app_assoc. rewrite modes_sp1_pat.
+  rewrite (proj1 modes_pat). apply IH.
+Qed.
+
+Lemma modes_ptail : forall r stk X, modes false stk (i_ptail r ++ X) = modes false stk X.
+Proof. induction r as [|p r IH]; intros stk X; [reflexivity|]. destruct p; simpl; apply IH. Qed.
+
+Ltac modes_tac :=
+  repeat progress (simpl; rewrite <- ?app_assoc; rewrite ?modes_sp1_sq, ?modes_sp1_kvs, ?modes_sp1_pat, ?(proj1 modes_pat);
+                   repeat match goal with
+                          | IH : forall stk rest, modes false stk (?X ++ rest) = modes false stk rest
+                            |- context [modes false ?s (?X ++ ?r)] => rewrite (IH s r)
+                          end).
+
+Lemma modes_items :
+  (forall b stk rest, modes false stk (i_base b ++ rest) = modes false stk rest) /\
+  (forall t stk rest, modes false stk (i_pt t ++ rest) = modes false stk rest) /\
+  (forall s fid c stk rest, modes false stk (i_sfx fid c s ++ rest) = modes false stk rest) /\
+  (forall u stk rest, modes false stk (i_ut u ++ rest) = modes false stk rest) /\
+  (forall q stk rest, modes false stk (i_sq q ++ rest) = modes false stk rest) /\
+  (forall l stk rest, modes false stk (i_kvs l ++ rest) = modes false stk rest) /\
+  (forall k stk rest, modes false stk (i_kv k ++ rest) = modes false stk rest) /\
+  (forall el stk rest, modes false stk (i_elifs el ++ rest) = modes false stk rest) /\
+  (forall r stk rest, modes true stk (i_tail r ++ rest) = modes false stk rest).
+Proof.
+  apply sub_mutind; intros; try (destruct fid); modes_tac; try reflexivity;
+    try (rewrite H0; reflexivity);
+    repeat (rewrite ?modes_ipiece; modes_tac; rewrite ?H, ?H0; modes_tac); try reflexivity.
+  - (* as *)
+    modes_tac; rewrite ?modes_sp1_pat, ?(proj1 modes_pat), ?modes_alts; modes_tac; reflexivity.
+  - (* def with parameters *)
+    destruct ps as [|p0 pr]; [|destruct p0]; modes_tac; rewrite ?modes_ptail; modes_tac; rewrite ?H, ?H0; modes_tac;
+      try reflexivity.
 Qed.
 
 (* ---- print_tokens ---------------------------------------------------------------------------------------- *)
@@ -1016,6 +1532,7 @@ Qed.
 Theorem print_tokens : forall q, wf_sq q = true ->
   option_map (map proj) (tokenize (print_query (e_sq q))) = Some (tokens_of q ++ [(KEOF, [])]).
 Proof.
-  intros q W. rewrite print_bytes_are_items by auto. apply tokenize_items.
+  intros q W. rewrite print_bytes_are_items by auto. apply tokenize_items;
+    [|rewrite <- (app_nil_r (i_sq q)); rewrite (proj1 (proj2 (proj2 (proj2 (proj2 modes_items)))) q [] []); reflexivity].
   rewrite <- chain_nb_none. apply (proj1 (proj2 (proj2 (proj2 (proj2 chain_items)))) q W [] eq_refl).
 Qed.
